@@ -23,8 +23,9 @@ Every fault kind is built so that the result is invalid DBML whatever surrounds 
     outside strings, comments and back-tick expressions;
   * an extra or a missing brace / bracket leaves the braces (brackets) outside strings, comments and
     expressions unbalanced, which no valid document is (array types `int[]` are balanced in themselves);
-    an extra '}' in a table body is only placed after the first column line, so that the document does not
-    in addition declare a table without columns (a different rule with a different error, property C06);
+    an extra '}' in a table body (or in an indexes / note block of a table) is only placed after the table's first
+    column line, so that the document does not in addition declare a table without columns (a different rule with
+    a different error, property C06);
   * an unterminated single / double quoted string is opened where a string is expected and no quote of the same
     kind follows on its line (these strings cannot span lines); a triple quote is opened only where in addition
     no ''' follows in the rest of the document;
@@ -462,18 +463,27 @@ def _line_sites(doc: Doc) -> List[Tuple[str, str, int, str, Dict[str, Any]]]:
     counters: Dict[str, int] = {}
     for b in doc.blocks:
         seen_column = False
+        guard = b.cls == 'table-body'
+        if b.parent is not None and b.parent.cls == 'table-body':
+            # a sub-block of a table: an extra '}' here makes the sub-block's own '}' close the table
+            guard = True
+            for pl in b.parent.lines:
+                if pl.block is b:
+                    break
+                if pl.kind == 'column':
+                    seen_column = True
         for ln in b.lines:
             if ln.line_start >= 0:
                 n = counters.get(b.cls, 0)
                 counters[b.cls] = n + 1
-                out.append((b.cls, f'{b.cls}#{n}', ln.line_start, ln.indent, {'after_column': seen_column}))
+                out.append((b.cls, f'{b.cls}#{n}', ln.line_start, ln.indent, {'after_column': seen_column or not guard}))
             if ln.kind == 'column':
                 seen_column = True
         if b.close_line_start >= 0:
             n = counters.get(b.cls, 0)
             counters[b.cls] = n + 1
             indent = b.lines[-1].indent if b.lines and b.lines[-1].line_start >= 0 else b.close_indent + '  '
-            out.append((b.cls, f'{b.cls}#{n}', b.close_line_start, indent, {'after_column': seen_column}))
+            out.append((b.cls, f'{b.cls}#{n}', b.close_line_start, indent, {'after_column': seen_column or not guard}))
     return out
 
 
@@ -582,7 +592,7 @@ def faults(text: str) -> List[Fault]:
         for tok in STRAY_TOKENS:
             whole_line(cls, site, pos, indent, 'stray-token', tok, tok)
         for kind, ch in extra.items():
-            if kind == 'extra-close-brace' and cls == 'table-body' and not info.get('after_column'):
+            if kind == 'extra-close-brace' and not info.get('after_column'):
                 continue        # would also declare a table without columns (C06's rule)
             whole_line(cls, site, pos, indent, kind, ch, ch)
     for tok in STRAY_TOKENS:
